@@ -1418,6 +1418,14 @@ op_check(Priority, OpSpec, Op) :-
        ;  throw(error(permission_error(create, operator, (|)), op/3))
        )
     ;  true
+    ),
+    (  lists:member(OpSpec, [xfx, xfy, yfx]),
+       current_op(_, PostSpec, Op), lists:member(PostSpec, [xf, yf]) ->
+       throw(error(permission_error(create, operator, Op), op/3))
+    ;  lists:member(OpSpec, [xf, yf]),
+       current_op(_, InfSpec, Op), lists:member(InfSpec, [xfx, xfy, yfx]) ->
+       throw(error(permission_error(create, operator, Op), op/3))
+    ;  true
     ).
 
 
